@@ -31,6 +31,7 @@ struct Access {
     std::function<Real(const State&)> pe;
     std::function<Real(const State&)> relRot;   // optional: |relative angular velocity| of the two contacting bodies (site predicate)
     std::string siteId;
+    std::string tag;                            // optional extra label prefix for a sub-class that must be shown to be judged (e.g. "eff:mesh-mesh")
     std::function<Real(const State&)> maxStep;  // optional: largest |t| keeping q + t*qdot away from the element's non-smooth points (state: direction's speeds, Velocity stage)
     bool peAtPositionStage = false;   // element documented to report its energy from a state realized to Stage::Position only
 };
@@ -116,6 +117,7 @@ void judge(pbt::Ctx& ctx, const std::string& name, const Access& a, State& s, Cl
             if (std::fabs(D) > tol) { ctx.fail(name + ": power " + S(p.P) + " != -dPE/dt = " + S(-fd.d) + " along the motion (difference " + S(D) + ", tolerance " + S(tol) + ", FD step " + S(fd.h) + ", PE " + S(pe0) + ")"); return; }
         } else if (D > tol) { ctx.fail(name + ": dissipation term P + dPE/dt = " + S(D) + " is positive (P=" + S(p.P) + ", dPE/dt=" + S(fd.d) + ", tolerance " + S(tol) + ")"); return; }
         if (cls == Dissipative && !dampingIsZero && D < -tol) ctx.label(name + "/dissipating");
+        if (!a.tag.empty() && scale > 0) ctx.label(a.tag + ((cls == Conservative || dampingIsZero) ? "/power=-dPE/dt checked" : "/dissipation-sign checked"));
         ctx.nontrivial(unum && active && scale > 0);
     }
     // generalized force = -gradient of PE, component by component (forces of a conservative element do not depend on u)
@@ -132,7 +134,7 @@ void judge(pbt::Ctx& ctx, const std::string& name, const Access& a, State& s, Cl
             if (calib) { Real r = std::fabs(pi.P + fi.d) / sc; char b[64]; snprintf(b, sizeof b, "/gcalib:1e%+03d", r > 0 ? (int)std::floor(std::log10(r)) : -99); ctx.label(name + b); continue; }
             if (std::fabs(pi.P + fi.d) > tol) ctx.fail(name + ": generalized force component " + std::to_string(i) + " = " + S(pi.P) + " != -dPE/dq.N^-1 = " + S(-fi.d) + " (tolerance " + S(tol) + ", PE " + S(pe0) + ")");
         }
-        if (checked) ctx.label(name + "/gradient-checked"); if (unreliable) ctx.label(name + "/some-gradient-directions-fd-unreliable");
+        if (checked) ctx.label(name + "/gradient-checked"); if (checked && !a.tag.empty()) ctx.label(a.tag + "/gradient-checked"); if (unreliable) ctx.label(name + "/some-gradient-directions-fd-unreliable");
     }
 }
 
@@ -157,7 +159,9 @@ void contactCase(const pbt::Tape& t, pbt::Ctx& ctx) {
     bool zeroDamping; Class cls = Dissipative;
     switch (sc.kind) {
         case cgen::HC: zeroDamping = lossFree(sc.s1.mat) && lossFree(sc.s2.mat) && !fric(sc.s1.mat, sc.s2.mat) && (sc.D < 0 || (lossFree(sc.s3.mat) && !fric(sc.s1.mat, sc.s3.mat))); break;
-        case cgen::EFF: { const cgen::Material& m = sc.meshOnBase ? sc.s1.mat : sc.s2.mat; zeroDamping = m.c == 0 && m.us == 0 && m.ud == 0 && m.uv == 0; break; }
+        case cgen::EFF: { auto z = [](const cgen::Material& m) { return m.c == 0 && m.us == 0 && m.ud == 0 && m.uv == 0; };     // only parametrised meshes carry springs
+            zeroDamping = (!sc.paramBase || z(sc.s1.mat)) && (!sc.paramProbe || z(sc.s2.mat));
+            if (sc.meshMesh) { a.tag = sc.paramBase && sc.paramProbe ? "eff:mesh-mesh" : "eff:mesh-mesh(one mesh parametrised)"; ctx.label(a.tag); } break; }
         case cgen::HertzCirc: case cgen::HertzEll: case cgen::CcsEF: case cgen::CcsBrick: zeroDamping = lossFree(sc.s1.mat) && lossFree(sc.s2.mat) && !fric(sc.s1.mat, sc.s2.mat); break;
         case cgen::ExpSpring: zeroDamping = sc.cz == 0; break;
         default: zeroDamping = false; cls = NotJudged; break;     // SmoothSphereHalfSpaceForce
@@ -270,7 +274,8 @@ pbt::Config config() {
                      "ExponentialSpringForce: normal part only (mu_s = mu_k = 0); the documented clamp at the maximum normal force is not judged", "MobilityLinearSpring / MobilityLinearStop only on mobilizers with qdot == u (documented)"};
     c.requiredLabels = {"HuntCrossleyForce/class:conservative", "ElasticFoundationForce/class:conservative", "CCS-HertzCircular/class:conservative", "CCS-ElasticFoundation/class:conservative", "CCS-BrickHalfSpace/class:conservative",
                         "ExponentialSpringForce/class:conservative", "HuntCrossleyForce/dissipating", "Gravity/class:conservative", "UniformGravity/class:conservative", "TwoPointLinearSpring/class:conservative",
-                        "MobilityLinearSpring/class:conservative", "LinearBushing/dissipating", "MobilityLinearStop/upper-engaged", "MobilityLinearStop/lower-engaged", "CableSpring/taut", "TwoPointLinearDamper/dissipating"};
+                        "MobilityLinearSpring/class:conservative", "LinearBushing/dissipating", "MobilityLinearStop/upper-engaged", "MobilityLinearStop/lower-engaged", "CableSpring/taut", "TwoPointLinearDamper/dissipating",
+                        "eff:mesh-mesh", "eff:mesh-mesh/power=-dPE/dt checked", "eff:mesh-mesh/gradient-checked", "eff:mesh-mesh/dissipation-sign checked"};
     c.directed.push_back({"ellipsoid-tilting-on-half-space", "hertz-elliptical-energy-ignores-curvature-change", [](pbt::Ctx& ctx) {
         // loss-free ellipsoid (radii 0.3, 0.6, 1.0) pressed 0.05 into a ground half-space, tilting about an in-plane axis through its centre
         MultibodySystem sys; SimbodyMatterSubsystem matter(sys); GeneralForceSubsystem forces(sys); ContactTrackerSubsystem tracker(sys); CompliantContactSubsystem ccs(sys, tracker);
